@@ -1,6 +1,8 @@
 package node
 
 import (
+	"crypto/sha256"
+	"encoding/binary"
 	"encoding/json"
 	"fmt"
 	"math/rand"
@@ -50,6 +52,7 @@ type WorldOpts struct {
 	Committees  func(i int, rng *rand.Rand) []uint64
 	Delegates   int // how many of the genesis validators are delegates
 	NoAnchor    bool
+	NodeOpts    func(i int, o *Options)
 }
 
 // NewWorld builds the chain and the population.
@@ -123,7 +126,7 @@ func NewWorld(rng *rand.Rand, o WorldOpts) (*World, error) {
 			spec.Accounts[k.PublicKey().Address().String()] = o.UserFunds / 10
 		}
 	}
-	ch, err := NewChain(spec, o.Nodes, o.Tweak)
+	ch, err := NewChain(spec, o.Nodes, o.Tweak, o.NodeOpts)
 	if err != nil {
 		return nil, err
 	}
@@ -132,8 +135,12 @@ func NewWorld(rng *rand.Rand, o WorldOpts) (*World, error) {
 	}
 	w.Ch = ch
 	if o.Gov {
-		for _, n := range ch.Nodes {
+		// every node (also late joiners and restarted ones) is in approve-list mode: the same governance-vote configuration
+		ch.OnNode = func(n *Node) {
 			n.C.Consensus.VerifSetProposalVoteDeadline(time.Now().Add(1000 * time.Hour).UnixMilli())
+		}
+		for _, n := range ch.Nodes {
+			ch.OnNode(n)
 		}
 	}
 	return w, nil
@@ -550,4 +557,31 @@ func (w *World) SignerPick() func(int, *lib.ConsensusValidator) bool {
 	return func(i int, _ *lib.ConsensusValidator) bool { return !out[i] }
 }
 
-func hashOf(tx []byte) string { return crypto.HashString(tx) }
+// HashOf is the transaction hash (hex of SHA-256 of the raw bytes).
+func HashOf(tx []byte) string { return crypto.HashString(tx) }
+
+func hashOf(tx []byte) string { return HashOf(tx) }
+
+// DumpState hashes every key/value of a state view (and counts them).
+func DumpState(st lib.RStoreI) (string, int, error) {
+	h := sha256.New()
+	n := 0
+	for p := 1; p < 256; p++ {
+		it, err := st.Iterator(lib.JoinLenPrefix([]byte{byte(p)}))
+		if err != nil {
+			return "", 0, err
+		}
+		for ; it.Valid(); it.Next() {
+			k, v := it.Key(), it.Value()
+			var l [8]byte
+			binary.BigEndian.PutUint32(l[:4], uint32(len(k)))
+			binary.BigEndian.PutUint32(l[4:], uint32(len(v)))
+			h.Write(l[:])
+			h.Write(k)
+			h.Write(v)
+			n++
+		}
+		it.Close()
+	}
+	return fmt.Sprintf("%x", h.Sum(nil)[:16]), n, nil
+}
